@@ -349,6 +349,19 @@ func runCLILocal(c *harness.Ctx, sc scenario, s, slot int) {
 	idxFile := filepath.Join(dir, "blob.caibx")
 	args := []string{"--config", cfgFile}
 	expectIdx := sc.idx
+	// further hostile set-ups of the fault-free slots: the index goes to a device that is full (make, tar), or the
+	// prefix directory of one chunk cannot be used (a regular file or a symlink loop sits in its place)
+	indexToFull, brokenPrefix := false, ""
+	if !full && (cmdName == "make" || cmdName == "tar") && rng.Intn(3) == 0 {
+		indexToFull = true
+	} else if !full && rng.Intn(3) == 0 && len(sc.idx.Chunks) > 0 && (cmdName == "chop" || cmdName == "cache") {
+		brokenPrefix = sc.idx.Chunks[rng.Intn(len(sc.idx.Chunks))].ID.String()[:4]
+		if rng.Intn(2) == 0 {
+			dsu.WriteFile(filepath.Join(target, brokenPrefix), []byte("in the way"))
+		} else {
+			os.Symlink(brokenPrefix, filepath.Join(target, brokenPrefix))
+		}
+	}
 	switch cmdName {
 	case "make":
 		args = append(args, "make", "-n", fmt.Sprint(sc.n), "-m", "1:2:4", "-s", target, idxFile, file)
@@ -372,12 +385,38 @@ func runCLILocal(c *harness.Ctx, sc scenario, s, slot int) {
 		idxFile = filepath.Join(dir, "tree.caidx")
 		args = append(args, "tar", "-i", "-n", fmt.Sprint(sc.n), "-m", "1:2:4", "-s", target, idxFile, tree)
 	}
+	if indexToFull {
+		for k := range args {
+			if args[k] == idxFile {
+				args[k] = "/dev/full"
+			}
+		}
+	}
 	cmd := exec.Command(cli, args...)
 	cmd.Env = append(os.Environ(), "HOME="+dir)
 	var stderr bytes.Buffer
 	cmd.Stderr = &stderr
 	err := cmd.Run()
 	c.Count("cli_local_runs", 1)
+	if indexToFull {
+		if err == nil {
+			c.Violation("success-despite-fault:cli-local-"+cmdName, "desync %s wrote its index to /dev/full (every write fails with ENOSPC) and exited 0", cmdName)
+			return
+		}
+		c.Count("cli_local_index_to_full_device", 1)
+		c.NonTrivial("cli-local|%s|index-to-full-device", cmdName)
+		return
+	}
+	if brokenPrefix != "" {
+		// the chunks of that prefix cannot be stored: success would mean they were skipped
+		if err == nil {
+			c.Violation("success-despite-fault:cli-local-"+cmdName, "desync %s exited 0 although the prefix directory %s of one of its chunks is not a directory", cmdName, brokenPrefix)
+			return
+		}
+		c.Count("cli_local_broken_prefix", 1)
+		c.NonTrivial("cli-local|%s|broken-prefix", cmdName)
+		return
+	}
 	// whatever the exit status: a file under a chunk name in the target holds that chunk
 	ls, _ := desync.NewLocalStore(target, desync.StoreOptions{Uncompressed: uncompressed})
 	bad := ""
